@@ -410,5 +410,6 @@ func doSecondaryGet(db kv.DB, req *proto.GetRequest) (primaryKey string, seconda
 		}
 	}
 
-	return primaryKey, secondaryKey, err
+	// The iterator is exhausted: there is no entry that satisfies the comparison
+	return "", "", nil
 }
